@@ -68,6 +68,15 @@ void op_pe_add_back(World& w, const Op& op)
     auto pe = w.lib2->playlist_entity();
     v2::playlist_entity_row row{v2::PLAYLIST_ENTITY_ROW_ID_NONE, w.crates.at((size_t)op.i[0]).id(), w.tracks.at((size_t)op.i[1]).id(),
                                 op.i[2] ? std::string("11111111-2222-3333-4444-555555555555") : w.uuid, v2::PLAYLIST_ENTITY_NO_NEXT_ENTITY_ID, v2::PLAYLIST_ENTITY_DEFAULT_MEMBERSHIP_REFERENCE};
+    // "When adding new rows to the table, there is no need to populate this field" (playlist_entity_row::next_entity_id):
+    // the row carries a stale successor, as a row copied from another list would - the id of the list's current first
+    // entry for the own-uuid variant, an id that does not exist for the foreign one. Either must be ignored.
+    row.next_entity_id = 424242;
+    if (!op.i[2])
+    {
+        auto existing = pe.get_for_list(row.list_id);
+        if (!existing.empty()) row.next_entity_id = existing.front().id;
+    }
     pe.add_back(row);
 }
 struct RegisterOps
